@@ -80,17 +80,14 @@ Proof.
   discriminate.
 Qed.
 
-Definition no_pair_ok (c : dchar) : bool := char_ok c && (false || negb (is_pair c)).
-
-(* unescape_string on a rendered string without surrogate pairs gives the denoted string *)
+(* unescape_string on a rendered string gives the denoted string *)
 Lemma unescape_rendered s :
-  forallb no_pair_ok s = true -> unescape (flat_map render_char s) = Ok (str_value s).
+  forallb char_ok s = true -> unescape (flat_map render_char s) = Ok (str_value s).
 Proof.
   induction s as [|c t IH]; intros H; [reflexivity|].
   cbn [forallb] in H. apply andb_true_iff in H. destruct H as [Hc Ht]. specialize (IH Ht).
-  unfold no_pair_ok in Hc. apply andb_true_iff in Hc. destruct Hc as [Hc Hp].
   unfold str_value in *. cbn [flat_map].
-  destruct c as [b | e | a b c d | a b c d a2 b2 c2 d2]; cbn [render_char app char_value]; [| | |discriminate].
+  destruct c as [b | e | a b c d | a b c d a2 b2 c2 d2]; cbn [render_char app char_value].
   - cbn [char_ok] in Hc. cbn [unescape]. replace (b =? 92) with false by lia. rewrite IH. reflexivity.
   - cbn [char_ok] in Hc. destruct (esc_val e) as [x|] eqn:Ee; [|discriminate].
     destruct (esc_val_simple e x Ee) as [Hu Hs].
@@ -108,23 +105,41 @@ Proof.
     unfold ascii4. replace (a <? 128) with true by lia. replace (b <? 128) with true by lia.
     replace (c <? 128) with true by lia. replace (d <? 128) with true by lia. cbn [andb].
     unfold hex4. rewrite Hvb, Hvc, Hvd, Hva. replace (a =? 43) with false by lia.
-    rewrite Hcp. unfold is_surrogate. rewrite (negb_true_iff _) in Hc. rewrite Hc.
-    rewrite IH. unfold rmap, bind. f_equal. f_equal.
-    unfold utf8_encode, utf8_of_cp. assert (cp < 65536) by lia.
-    destruct (cp <? 128); [reflexivity|]. destruct (cp <? 2048); [reflexivity|].
-    replace (cp <? 65536) with true by lia. reflexivity.
+    rewrite Hcp. apply negb_true_iff in Hc.
+    unfold is_high_surrogate, is_surrogate.
+    replace ((55296 <=? cp) && (cp <? 56320)) with false by lia. rewrite Hc.
+    now rewrite IH.
+  - cbn [char_ok] in Hc.
+    destruct (hex_cp a b c d) as [hi|] eqn:Eh; [|discriminate].
+    destruct (hex_cp a2 b2 c2 d2) as [lo|] eqn:El; [|discriminate].
+    unfold hex_cp in Eh, El.
+    destruct (hex_digit a) as [x|] eqn:Ea; [|discriminate]. destruct (hex_digit b) as [y|] eqn:Eb; [|discriminate].
+    destruct (hex_digit c) as [z|] eqn:Ec; [|discriminate]. destruct (hex_digit d) as [w|] eqn:Ed; [|discriminate].
+    destruct (hex_digit a2) as [x2|] eqn:Ea2; [|discriminate]. destruct (hex_digit b2) as [y2|] eqn:Eb2; [|discriminate].
+    destruct (hex_digit c2) as [z2|] eqn:Ec2; [|discriminate]. destruct (hex_digit d2) as [w2|] eqn:Ed2; [|discriminate].
+    inversion Eh as [Hhi]. inversion El as [Hlo].
+    apply hex_digit_range in Ea, Eb, Ec, Ed, Ea2, Eb2, Ec2, Ed2.
+    destruct Ea as (Hx & Ha & _ & _ & Ha43 & Hva). destruct Eb as (Hy & Hb & _ & _ & _ & Hvb).
+    destruct Ec as (Hz & Hc' & _ & _ & _ & Hvc). destruct Ed as (Hw & Hd & _ & _ & _ & Hvd).
+    destruct Ea2 as (Hx2 & Ha2 & _ & _ & Ha243 & Hva2). destruct Eb2 as (Hy2 & Hb2 & _ & _ & _ & Hvb2).
+    destruct Ec2 as (Hz2 & Hc2 & _ & _ & _ & Hvc2). destruct Ed2 as (Hw2 & Hd2 & _ & _ & _ & Hvd2).
+    cbn [unescape]. change (92 =? 92) with true. change (117 =? 117) with true. cbv iota.
+    unfold ascii4. replace (a <? 128) with true by lia. replace (b <? 128) with true by lia.
+    replace (c <? 128) with true by lia. replace (d <? 128) with true by lia.
+    replace (a2 <? 128) with true by lia. replace (b2 <? 128) with true by lia.
+    replace (c2 <? 128) with true by lia. replace (d2 <? 128) with true by lia. cbn [andb].
+    unfold hex4. rewrite Hvb, Hvc, Hvd, Hva, Hvb2, Hvc2, Hvd2, Hva2.
+    replace (a =? 43) with false by lia. replace (a2 =? 43) with false by lia.
+    rewrite Hhi, Hlo. unfold is_high_surrogate, is_low_surrogate.
+    replace ((55296 <=? hi) && (hi <? 56320)) with true by lia.
+    replace ((56320 <=? lo) && (lo <? 57344)) with true by lia.
+    now rewrite IH.
 Qed.
 
 Lemma plain_value s : forallb plain s = true -> flat_map render_char s = str_value s.
 Proof.
   induction s as [|c t IH]; intros H; [reflexivity|]. cbn [forallb] in H. apply andb_true_iff in H. destruct H as [Hc Ht].
   destruct c; try discriminate. unfold str_value in *. cbn [flat_map render_char char_value]. rewrite (IH Ht). reflexivity.
-Qed.
-
-Lemma no_pair_char_ok s : forallb no_pair_ok s = true -> forallb char_ok s = true.
-Proof.
-  intros H. rewrite forallb_forall in *. intros c Hc. specialize (H c Hc). unfold no_pair_ok in H.
-  apply andb_true_iff in H. apply H.
 Qed.
 
 Section Tok.
@@ -134,14 +149,14 @@ Section Tok.
   Proof. intros H. unfold next_token. rewrite skip_ws_app by exact H. reflexivity. Qed.
 
   Lemma next_token_str s rest :
-    forallb no_pair_ok s = true ->
+    forallb char_ok s = true ->
     next_token num_of (render_str s ++ rest) = Ok (Some (TStr (str_value s), rest)).
   Proof.
     intros H. unfold render_str. cbn [app]. unfold next_token. rewrite skip_ws_stop by reflexivity.
     change (34 =? 123) with false. change (34 =? 125) with false. change (34 =? 91) with false.
     change (34 =? 93) with false. change (34 =? 58) with false. change (34 =? 44) with false.
     change (34 =? 34) with true. cbv iota.
-    rewrite <- app_assoc. cbn [app]. rewrite scan_rendered by (apply no_pair_char_ok; exact H).
+    rewrite <- app_assoc. cbn [app]. rewrite scan_rendered by exact H.
     destruct (forallb plain s) eqn:Ep; cbn [negb]; cbv iota.
     - rewrite plain_value by exact Ep. reflexivity.
     - rewrite unescape_rendered by exact H. reflexivity.
